@@ -56,6 +56,36 @@ def scenarios():
                 leave = {"op": "close", "c": 1} if how == "close" else {"op": "send", "c": 1, "kind": "DISCONNECT"}
                 pubs = [{"op": "pub", "c": 9, "t": ["a", "b"], "p": "gone%d" % i, "q": 1, "r": False, "id": 50 + i} for i in range(npub)]
                 out.append(setup(False) + [sub, {"op": "race", "hold": "subs.delete", "a": leave, "b": pubs}] + sweeps + [{"op": "quiesce"}])
+    # a client that sends SUBSCRIBE and hangs up before the answer can be written: whatever the handler had done by then is
+    # undone with the session
+    for hold in ("subs.create", "topics.get"):
+        for fs in ([["a", "b"]], [["a", "b"], ["c", "#"]], [["#"]]):
+            for before in (False, True):
+                sub = {"op": "sub", "c": 1, "id": 5, "fs": [{"f": f, "q": 1} for f in fs]}
+                out.append(setup(before) + [{"op": "race", "hold": hold, "a": sub, "b": [{"op": "close", "c": 1}]},
+                                            {"op": "pub", "c": 9, "t": ["a", "b"], "p": "later", "q": 1, "r": False, "id": 60}] + sweeps + [{"op": "quiesce"}])
+    # two CONNECTs with the same client identifier that overlap: one is parked inside its set-up (before / after it looks for
+    # earlier sessions, before it registers) while the other completes.  Both are accepted; afterwards one of them is served.
+    for hold in ("sess.all", "sess.byclientid", "sess.create", "sess.delete"):
+        for pre in (False, True):
+            c1 = {"op": "connect", "c": 1, "n": 1, "client": "same", "ka": 10}
+            c2 = {"op": "connect", "c": 2, "n": 1, "client": "same", "ka": 10}
+            ops = [{"op": "connect", "c": 9, "n": 1, "client": "pub", "ka": 6000}]
+            if pre:    # an older session of that client id exists already (a plain takeover comes first)
+                ops.append({"op": "connect", "c": 3, "n": 1, "client": "same", "ka": 10})
+            ops += [{"op": "race", "hold": hold, "a": c1, "b": [c2]}]
+            for _ in range(2):
+                ops += [{"op": "send", "c": c, "kind": "PINGREQ"} for c in ((3, 1, 2) if pre else (1, 2))]
+            ops.append({"op": "quiesce"})
+            out.append(ops)
+    # a client that pipelines CONNECT with DISCONNECT (or hangs up) without waiting for the CONNACK: the set-up is parked where it
+    # registers the session (or looks for earlier ones); whatever order the broker does things in, no trace of the session stays
+    for hold in ("reg.create", "sess.create", "sess.byclientid"):
+        for how in ("disconnect", "close"):
+            c1 = {"op": "connect", "c": 1, "n": 1, "client": "hasty", "ka": 10}
+            bye = {"op": "send", "c": 1, "kind": "DISCONNECT"} if how == "disconnect" else {"op": "close", "c": 1}
+            out.append([{"op": "connect", "c": 9, "n": 1, "client": "pub", "ka": 6000},
+                        {"op": "race", "hold": hold, "a": c1, "b": [bye]}] + sweeps + [{"op": "quiesce"}])
     return [{"nodes": [1], "ops": o} for o in out]
 
 
@@ -94,7 +124,11 @@ def classify(scn, line):
     if e["op"] == "srv.write" and e.get("kind") == "PUBLISH":
         return "race:PUBLISH-to-a-session-that-may-not-get-it"
     if e["op"] == "probe":
-        return "race:identifiers-held-at-quiescence"
+        if e.get("held"):
+            return "race:identifiers-held-at-quiescence"
+        if not e.get("sessions") or len({x["client"] for x in e.get("sessions", [])}) < len({x.get("client") for x in scn[:line] if x.get("op") == "cli.send" and x.get("kind") == "CONNECT"}):
+            return "race:client-id-left-without-a-session"
+        return "race:trace-of-an-ended-session-listed"
     if e["op"] in ("stall", "process.died"):
         return "race:" + e["op"]
     return "race:%s-unexplained" % e["op"]
